@@ -110,8 +110,10 @@ def cases(tier):
     for dt in ("float64", "int32", "text"):
         yield {"k": "compr", "dtype": dt}
     for dt in (ALL if tier == "thorough" else ("float64", "int16", "uint8", "bool", "text")):
-        for shp in ([1200], [300, 5], [40, 9, 4]):
+        for shp in ([1200], [300, 5], [40, 9, 4], [7, 1300], [9, 31, 37]):
             yield {"k": "big", "dtype": dt, "shape": shp}
+    for dt in ("int32", "text") if tier == "quick" else ALL:
+        yield {"k": "big", "dtype": dt, "shape": [8193]}
 
 
 # ---------------------------------------------------------------- model
@@ -202,6 +204,8 @@ def verify(r, da, model, dt, opk, stage):
             msg = eq_known(buf, model)
             if msg:
                 return bad("read_direct", msg)
+            if shape[0] > 1500:
+                return True         # iteration element by element is only verified up to 1500 rows
             rows = [np.asarray(x) for x in da]
             if len(rows) != shape[0]:
                 return bad("iteration", "iteration yields %d rows" % len(rows))
